@@ -45,15 +45,25 @@ def _consistent_roles(ctx):
     except Exception:
         body = None
     if body is not None:
+        els = ["elem(%s)" % sig(l[3]) for l in q.loop_with_source(body, lambda s_: True) if sig(l[3]) == "$2" or _filter_of(l[3], "$2")] or [_EL]
+        doc, coin = _DOC.replace(_EL, els[0]), _COIN.replace(_EL, els[0])
         for bi, e in q.call_exprs(body, "stake_is_consistent"):
             got = [sig(a) for a in e[2]]
-            if sorted(got) == sorted([_DOC, _EPOCH, _COIN]):
-                return got.index(_DOC) + 1, got.index(_EPOCH) + 1, got.index(_COIN) + 1
+            if sorted(got) == sorted([doc, _EPOCH, coin]):
+                return got.index(doc) + 1, got.index(_EPOCH) + 1, got.index(coin) + 1
     return 1, 2, 3
 
 
+def _filter_of(src, srcsig):
+    """the closure of `src.filter(|x| ..)` when the loop source is a filtered view of srcsig"""
+    s0 = mir.strip(src)
+    if q.is_call(s0, "Iterator::filter") and len(s0[2]) == 2 and sig(mir.strip(s0[2][0])) == srcsig and s0[2][1][0] == "closure":
+        return s0[2][1][1]
+    return None
+
+
 def _loop(ctx, r, body, srcsig):
-    loops = [l for l in q.loop_with_source(body, lambda s: True) if sig(l[3]) == srcsig]
+    loops = [l for l in q.loop_with_source(body, lambda s: True) if sig(l[3]) == srcsig or _filter_of(l[3], srcsig)]
     r.anchor(loops, "loop over %s in %s" % (srcsig, body.nname.split("::")[-1]))
     return loops[0]
 
@@ -80,7 +90,8 @@ def r2_registration(ctx):
     r = ctx.rule("R2", "load_stake_info: a Stake tx is registered only if data decodes, outputs[0] exists and is SYM, and stake_is_consistent(doc, this.height.epoch(), outputs[0]); legacy exemption ⊆ {Mainnet,Testnet} ∧ height < 500000")
     body = ctx.body(LSI, r)
     h, blocks, latches, src = _loop(ctx, r, body, "$2")
-    EL = "elem($2)"
+    EL = "elem(%s)" % sig(src)
+    fclosure = _filter_of(src, "$2")
     regs = [(bi, e) for bi, e in q.call_exprs(body, "HashMap::insert") if bi in blocks]
     r.check(len(regs) == 1, "register/one", "one registration site", "%d registration sites" % len(regs))
     if not regs:
@@ -93,7 +104,16 @@ def r2_registration(ctx):
     # kind atom
     KS = ("Eq(%s.kind, TxKind::Stake{})" % EL, "Eq(TxKind::Stake{}, %s.kind)" % EL)
     kinds = [e for e, c, bi in q.pick_atoms(body, lambda c: c in KS) if c in KS]        # `kind == Stake {..}` or `kind != Stake {continue}` or matches!
-    r.check(bool(kinds), "kind", "only Stake transactions are considered", "no kind == Stake test")
+    if fclosure and not kinds:
+        # `for tx in txx.iter().filter(|tx| tx.kind == Stake)`: the kind test is the filter's predicate
+        fc = ctx.prog.body(fclosure)
+        okf = fc is not None and q.check_conjunction(r, "kind/filter", fc, ["Eq($2.kind, TxKind::Stake{})"], body.where(h))
+        if okf:
+            r.ok("kind", "only Stake transactions are considered (filter predicate)", body.where(h))
+        else:
+            r.undecided("kind", "the loop ranges over a filtered batch whose predicate is not exactly kind == Stake", body.where(h))
+    else:
+        r.check(bool(kinds), "kind", "only Stake transactions are considered", "no kind == Stake test")
     if kinds:
         f = force(body, {kinds[0]: 0})
         r.check(rb not in f.reach, "kind/necessary", "non-Stake transactions are never registered", "a non-Stake transaction can be registered", body.where(rb))
